@@ -84,13 +84,30 @@ def enc_ctx(c):
     return '%s %s %d %d %d' % (on(c.fg), on(c.bg), bool(c.bold), bool(c.reverse), bool(c.underline))
 
 
+HANGS = [0]
+
+
+def _alarm_handler(signum, frame):
+    raise TimeoutError('did not return within 5 s')
+
+
 def safe_call(f, *a):
+    """call the implementation; an assertion, a crash or a loop that never ends become error codes"""
+    import signal
+    old = signal.signal(signal.SIGALRM, _alarm_handler)
+    signal.alarm(5)
     try:
         return f(*a), None
+    except TimeoutError:
+        HANGS[0] += 1
+        return None, 'hang'
     except AssertionError:
         return None, 'assert'
     except Exception as e:
         return None, 'crash ' + type(e).__name__
+    finally:
+        signal.alarm(0)
+        signal.signal(signal.SIGALRM, old)
 
 
 _colour_re = re.compile(r'\x03(?:\d{1,2},\d{1,2}|\d{1,2}|,\d{1,2}|)')
@@ -99,10 +116,8 @@ _colour_span_re = re.compile(r'\x03\d{0,2}(?:,\d{0,2})?')
 
 def classify_wrap(I, s, length):
     """which known-finding classes the input (s, length) of ircutils.wrap falls in — computed with the real code only"""
-    try:
-        return _classify_wrap(I, s, length)
-    except Exception:       # the code under test crashes on this input: no class explains that
-        return set()
+    res, err = safe_call(_classify_wrap, I, s, length)
+    return set() if err else res     # the code under test crashes / hangs on this input: no class explains that
 
 
 def _classify_wrap(I, s, length):
@@ -217,6 +232,8 @@ class Batch(object):
 def pure_cases(I, r, n, B, kinds=('munge', 'split', 'btw', 'parse', 'ctx', 'wrap', 'strip')):
     iu, us = I.ircutils, I.utils.str
     for _ in range(n):
+        if HANGS[0] >= 6:
+            break           # the code under test loops for ever again and again: enough failing inputs
         kind = r.choice(kinds)
         if kind == 'munge':
             s = gen_text(r, r.randint(0, 12), fmt=0.1, blanks=BLANKS + ['\n', '\r', '\r\n', '\t\t'])
@@ -517,9 +534,10 @@ class Live(object):
         import signal
 
         def _alarm(signum, frame):
-            raise RuntimeError('the reply did not return within 60 s (byteTextWrap with a size below 4 never ends)')
+            HANGS[0] += 1
+            raise RuntimeError('the reply did not return within 10 s (a loop that never ends, e.g. byteTextWrap with a size below 4)')
         old_handler = signal.signal(signal.SIGALRM, _alarm)
-        signal.alarm(60)
+        signal.alarm(10)
         try:
             first = bot.feed(b, inp['prefix'], self.target(inp), ('@' if chan else '') + cmd)
         finally:
@@ -662,8 +680,11 @@ def live_case(I, L, inp, kind='live'):
             inp.pop('owner', None)
     has_pre = bool(inp.get('pre')) and inp.get('shape', 'reply') in ('reply', 'action')
     pre_call = call_fields(L, inp, kw_override=inp['pre']['kw']) if has_pre else None
+    hangs_before = HANGS[0]
     try:
         first, stored, steps, spy, T = L.run(inp, T)
+        if HANGS[0] > hangs_before:
+            raise RuntimeError('the reply did not return within 10 s (a loop that never ends, e.g. byteTextWrap with a size below 4)')
     except RuntimeError as e:
         # the command never came back (alarm): reported as a failing input, nothing to compare
         case = Case(inp, impl=None, oracle_ok=False, oracle_msg=str(e), kind=kind, tags=('live', 'live:hang'))
@@ -1168,6 +1189,8 @@ def explore(ctx, n_pure, n_wrap, n_live, stream='c12', with_corpus=True):
     rl = rng.make(stream + '/live')
     import copy
     for _ in range(n_live):
+        if HANGS[0] >= 3:
+            break       # the bot hangs again and again (the alarm fired): enough failing inputs
         inp = gen_live_input(rl, ctx.thorough)
         LB.add(live_case(I, live(), inp, 'live'))
         if rl.random() < 0.12:
